@@ -369,6 +369,14 @@ def verify_contract(repo_root: str, target: str, z3_ms=None, budget_s=600.0) -> 
             res.reason = "vacuous: no statement of the function under contract was executed on any path"
             return res
         res.uncovered_lines = sorted({n.lineno for n in body if id(n) not in executed})[:12]
+        # a `return` that no explored path reaches would make the postconditions vacuous for that exit: the contract must
+        # say that its parameter domain excludes it (`partial_domain="why"`), otherwise the function is undecided
+        dead_returns = [n.lineno for n in body if isinstance(n, ast.Return) and id(n) not in executed]
+        if dead_returns and not getattr(c, "partial_domain", None):
+            res.status = "undecided"
+            res.reason = (f"return statement(s) at line(s) {dead_returns[:4]} of {c.target} are never reached on any explored path: the postconditions would be "
+                          "vacuous for that exit (declare partial_domain=... in the contract if the parameter domain excludes it on purpose)")
+            return res
         # "nothing else escapes": one obligation per function, failed by any escape.* obligation
         if not any("/escape." in ob.oid for ob in all_obs):
             all_obs.append(Obligation(f"{c.target}/noescape", [], z3.BoolVal(True), "", f"no exception class outside {sorted(c.raises)} reaches the caller on any path", ""))
